@@ -1,6 +1,7 @@
 package effects
 
 import (
+	"go/constant"
 	"fmt"
 	"go/ast"
 	"go/token"
@@ -1026,6 +1027,9 @@ func checkReportArg(w *World, res *report.RuleResult, key, name string, in ssa.I
 		if dynamicParam {
 			return // the message handed in through an interface method (goyacc's Error(msg))
 		}
+		if w.constMessageTable(v) {
+			return // an element of a package-level table of non-empty string constants that nothing writes
+		}
 		msgOK = false
 	})
 	w.eachOrigin(in.Parent(), a[1], 0, func(v ssa.Value, dynamicParam bool) {
@@ -1387,4 +1391,115 @@ func (w *World) eachOrigin(fn *ssa.Function, v ssa.Value, depth int, f func(v ss
 	if sites == 0 {
 		f(v, true)
 	}
+}
+
+
+// constMessageTable: v is a load of an element of a package-level array or slice variable whose initialiser
+// lists only non-empty string constants and that no function of the module stores into or takes apart
+// (messages[kind]; that the index is in range is rule idx-safe's).
+func (w *World) constMessageTable(v ssa.Value) bool {
+	ld, ok := v.(*ssa.UnOp)
+	if !ok || ld.Op != token.MUL {
+		return false
+	}
+	ia, ok := ld.X.(*ssa.IndexAddr)
+	if !ok {
+		return false
+	}
+	var g *ssa.Global
+	switch b := ia.X.(type) {
+	case *ssa.Global:
+		g = b
+	case *ssa.UnOp:
+		if b.Op == token.MUL {
+			g, _ = b.X.(*ssa.Global)
+		}
+	}
+	if g == nil || g.Pkg == nil {
+		return false
+	}
+	// the only uses: element loads (and, in the package initialiser, the stores that build the table)
+	for _, fn := range w.Funcs {
+		for _, blk := range fn.Blocks {
+			for _, in := range blk.Instrs {
+				for _, op := range in.Operands(nil) {
+					if *op != ssa.Value(g) {
+						continue
+					}
+					if fn.Name() == "init" && fn.Pkg == g.Pkg {
+						continue
+					}
+					switch x := in.(type) {
+					case *ssa.IndexAddr:
+						for _, r := range *x.Referrers() {
+							if u, ok := r.(*ssa.UnOp); !ok || u.Op != token.MUL {
+								return false
+							}
+						}
+					case *ssa.UnOp:
+						if x.Op != token.MUL {
+							return false
+						}
+						for _, r := range *x.Referrers() {
+							switch y := r.(type) {
+							case *ssa.IndexAddr:
+								for _, r2 := range *y.Referrers() {
+									if u, ok := r2.(*ssa.UnOp); !ok || u.Op != token.MUL {
+										return false
+									}
+								}
+							case *ssa.Index, *ssa.DebugRef:
+							case *ssa.Call:
+								if b, ok := y.Common().Value.(*ssa.Builtin); !ok || b.Name() != "len" {
+									return false
+								}
+							default:
+								return false
+							}
+						}
+					default:
+						return false
+					}
+				}
+			}
+		}
+	}
+	// the initialiser, from the syntax
+	for _, pk := range w.P.All {
+		if pk.Types != g.Pkg.Pkg {
+			continue
+		}
+		for _, f := range pk.Syntax {
+			for _, d := range f.Decls {
+				gd, ok := d.(*ast.GenDecl)
+				if !ok || gd.Tok != token.VAR {
+					continue
+				}
+				for _, sp := range gd.Specs {
+					vs := sp.(*ast.ValueSpec)
+					for i, nm := range vs.Names {
+						if nm.Name != g.Name() || i >= len(vs.Values) {
+							continue
+						}
+						cl, ok := vs.Values[i].(*ast.CompositeLit)
+						if !ok || len(cl.Elts) == 0 {
+							return false
+						}
+						for _, el := range cl.Elts {
+							val := el
+							if kv, ok := el.(*ast.KeyValueExpr); ok {
+								val = kv.Value
+							}
+							tv := pk.TypesInfo.Types[val]
+							if tv.Value == nil || tv.Value.Kind() != constant.String || constant.StringVal(tv.Value) == "" {
+								return false
+							}
+						}
+						return true
+					}
+				}
+			}
+		}
+	}
+	return false
 }
